@@ -998,8 +998,8 @@ macro_rules! v5_parts {
                 v5::ProtocolMessage::Ping(_) => ("ping", 0),
             };
             let kind = match &msg {
-                v5::ProtocolMessage::Subscribe(m) => format!("sub:{}", m.packet().topic_filters.first().map(|f| f.0.to_string()).unwrap_or_default()),
-                v5::ProtocolMessage::Unsubscribe(m) => format!("unsub:{}", m.packet().topic_filters.first().map(|f| f.to_string()).unwrap_or_default()),
+                v5::ProtocolMessage::Subscribe(m) => format!("sub:{}", m.packet().topic_filters.iter().map(|f| f.0.to_string()).collect::<Vec<_>>().join(",")),
+                v5::ProtocolMessage::Unsubscribe(m) => format!("unsub:{}", m.packet().topic_filters.iter().map(|f| f.to_string()).collect::<Vec<_>>().join(",")),
                 _ => kind.to_string(),
             };
             let (o, mut guard) = gated_proto(&log, &pg, &kind, pid).await;
@@ -1096,8 +1096,8 @@ macro_rules! v3_parts {
             };
             let mut msg = msg;
             let kind = match &mut msg {
-                v3::ProtocolMessage::Subscribe(m) => format!("sub:{}", m.iter_mut().next().map(|s| s.topic().to_string()).unwrap_or_default()),
-                v3::ProtocolMessage::Unsubscribe(m) => format!("unsub:{}", m.iter().next().map(|s| s.to_string()).unwrap_or_default()),
+                v3::ProtocolMessage::Subscribe(m) => format!("sub:{}", m.iter_mut().map(|s| s.topic().to_string()).collect::<Vec<_>>().join(",")),
+                v3::ProtocolMessage::Unsubscribe(m) => format!("unsub:{}", m.iter().map(|s| s.to_string()).collect::<Vec<_>>().join(",")),
                 _ => kind.to_string(),
             };
             let (o, mut guard) = gated_proto(&log, &pg, &kind, pid).await;
